@@ -126,6 +126,11 @@ func (engC02) Gen(r *Rng, s *Script, idx int, tier string) {
 			s.Steps = append(s.Steps, genRenderStep(r, 10))
 			continue
 		}
+		if r.Chance(1, 25) {
+			// the caller re-reads a cell's item: the cell keeps its place
+			s.Steps = append(s.Steps, Step{Op: "updateCell", A: r.Intn(4)})
+			continue
+		}
 		s.Steps = append(s.Steps, genBuildStep(r, m, -1, &ctr)) // level -1: unique items plus blank ones (nil, "")
 	}
 }
@@ -147,7 +152,7 @@ func (engC02) Exec(s *Script, keepLog bool) (guarded *Result) {
 			return w.CheckC02("render")
 		}
 		w.beginStep()
-		if !w.Do(st) {
+		if !w.Do(st) && !(st.Op == "updateCell" && w.DoProp(st)) {
 			return nil
 		}
 		return w.CheckC02(st.Op)
@@ -236,7 +241,7 @@ func (engC09) Gen(r *Rng, s *Script, idx int, tier string) {
 			if r.Chance(3, 4) {
 				s.Steps = append(s.Steps, Step{Op: "align", A: r.Intn(6), B: r.Intn(4)})
 			} else {
-				s.Steps = append(s.Steps, Step{Op: "skipable", A: r.Intn(6), B: r.Intn(3)})
+				s.Steps = append(s.Steps, Step{Op: "skipable", A: r.Intn(6), B: r.Pick([]int{2, 2, 2, 1, 1})})
 			}
 		}
 	}
